@@ -157,6 +157,16 @@ func composeOf(s string) string {
 	for _, m := range composeRx.FindAllStringSubmatch(s, -1) {
 		parts = append(parts, m[1]+"<<"+m[2])
 	}
+	// the same bytes taken with one little-endian load: Uint64(buf)>>8 is bytes 1..7, Uint32(buf)>>8 is bytes 1..3
+	if m := regexp.MustCompile(`LittleEndian\.Uint(64|32)\(buf\) >> #8\)`).FindStringSubmatch(s); m != nil && len(parts) == 0 {
+		n := 3
+		if m[1] == "64" {
+			n = 7
+		}
+		for i := 1; i <= n; i++ {
+			parts = append(parts, fmt.Sprintf("%d<<%d", i, 8*(i-1)))
+		}
+	}
 	sort.Strings(parts)
 	return strings.Join(parts, ",")
 }
